@@ -96,9 +96,10 @@ static void keepHooks() { if (vp_c08_false()) vp_c08_empty_disco(nullptr); }
 // One instance covers all IQ types and from present/absent, but each combination runs on its own branch of a switch over a
 // nondeterministic selector: inside a branch type and shape are constants for symbolic execution (no merged pointers), the
 // solver still decides all branches in one query.  Distinct template instances keep the optimiser from merging the calls.
-#define DISPATCH12(f) do { unsigned c_ = vp_u8(); vp_assume(c_ < 12); switch (c_) { \
-    case 0: f<0>(); break; case 1: f<1>(); break; case 2: f<2>(); break; case 3: f<3>(); break; case 4: f<4>(); break; case 5: f<5>(); break; \
-    case 6: f<6>(); break; case 7: f<7>(); break; case 8: f<8>(); break; case 9: f<9>(); break; case 10: f<10>(); break; default: f<11>(); break; } } while (0)
+#define DISPATCH(f) do { unsigned c_ = vp_u8(); vp_assume(c_ < 3); switch (c_) { case 0: f<0>(); break; case 1: f<1>(); break; default: f<2>(); break; } } while (0)
+#ifndef C08_HASFROM
+#define C08_HASFROM true
+#endif
 
 static void symOwnJid()
 {
@@ -113,8 +114,8 @@ static void symOwnJid()
 template<unsigned C> static void checkCase()
 {
     SymIq q;
-    const bool isIq = (C & 1);
-    symIq(q, C >> 1, true, 2, isIq ? L("iq") : L("message"));
+    const bool isIq = vp_bool();
+    symIq(q, C, true, 2, isIq ? L("iq") : L("message"));
     auto [isRequest, tagName, xmlns] = QXmpp::Private::checkIsIqRequest(q.iq);
     vp_assert(isRequest == (isIq && q.isRequest()), "C08 checkIsIqRequest: a request is exactly an <iq/> of type get or set");
     if (isRequest) {
@@ -124,7 +125,7 @@ template<unsigned C> static void checkCase()
     }
     vp_assert(g_nsent == 0, "C08 checkIsIqRequest sends nothing");
 }
-extern "C" void h_iqh_check() { internAttrs(); keepHooks(); DISPATCH12(checkCase); }
+extern "C" void h_iqh_check() { internAttrs(); keepHooks(); DISPATCH(checkCase); }
 // sendIqReply: exactly one stanza, to = requester, id = request id, type result unless the handler made it an error
 template<unsigned C> static void replyCase()
 {
@@ -172,7 +173,7 @@ struct Handler {
 template<unsigned OUTCOME> struct HandleCase {
     template<unsigned C> static void run()
     {
-        SymIq q; symIq(q, C >> 1, C & 1, 2);
+        SymIq q; symIq(q, C, C08_HASFROM, 2);
         Handler h; h.outcome = OUTCOME;
         const bool r = QXmpp::handleIqRequests<QXmppVersionIq, QXmppEntityTimeIq>(q.iq, theClient(), &h);
         const bool isVersion = q.firstIs(TAG_QUERY, NS_VERSION), isTime = q.firstIs(TAG_TIME, NS_TIME);
@@ -188,9 +189,9 @@ template<unsigned OUTCOME> struct HandleCase {
         }
     }
 };
-extern "C" void h_iqh_handle_result() { internAttrs(); keepHooks(); DISPATCH12(HandleCase<0>::template run); }
-extern "C" void h_iqh_handle_error() { internAttrs(); keepHooks(); DISPATCH12(HandleCase<1>::template run); }
-extern "C" void h_iqh_handle_erroriq() { internAttrs(); keepHooks(); DISPATCH12(HandleCase<2>::template run); }
+extern "C" void h_iqh_handle_result() { internAttrs(); keepHooks(); DISPATCH(HandleCase<0>::template run); }
+extern "C" void h_iqh_handle_error() { internAttrs(); keepHooks(); DISPATCH(HandleCase<1>::template run); }
+extern "C" void h_iqh_handle_erroriq() { internAttrs(); keepHooks(); DISPATCH(HandleCase<2>::template run); }
 
 // ------------------------------------------------------------------------------------------------ (3) real managers
 // contract of an extension towards the chain (see h_client.cpp)
@@ -218,56 +219,56 @@ template<unsigned C> static void versionCase()
     Raw<QXmppVersionManager> m;
     auto *d = new QXmppVersionManagerPrivate; d->clientName = vpSymString(1); d->clientVersion = vpSymString(1); d->clientOs = vpSymString(1);
     m.setD(d);
-    SymIq q; symIq(q, C >> 1, C & 1, 2);
+    SymIq q; symIq(q, C, C08_HASFROM, 2);
     const bool r = m->QXmppVersionManager::handleStanza(q.iq);
     checkContract(q, r);
     if (q.isRequest()) vp_assert(r == q.firstIs(TAG_QUERY, NS_VERSION), "C08 the version manager claims exactly the jabber:iq:version requests");
     if (q.isRequest() && r && g_nsent == 1) vp_assert(!replyIsError(0), "C08 a version request is answered with a result");
 }
-extern "C" void h_mgr_version() { symOwnJid(); DISPATCH12(versionCase); }
+extern "C" void h_mgr_version() { symOwnJid(); DISPATCH(versionCase); }
 template<unsigned C> static void timeCase()
 {
     Raw<QXmppEntityTimeManager> m;
-    SymIq q; symIq(q, C >> 1, C & 1, 2);
+    SymIq q; symIq(q, C, C08_HASFROM, 2);
     const bool r = m->QXmppEntityTimeManager::handleStanza(q.iq);
     checkContract(q, r);
     if (q.isRequest()) vp_assert(r == q.firstIs(TAG_TIME, NS_TIME), "C08 the entity time manager claims exactly the urn:xmpp:time requests");
     if (q.isRequest() && r && g_nsent == 1) vp_assert(replyIsError(0) == (q.ty == TY_SET), "C08 entity time: get is answered with a result, set with an error");
 }
-extern "C" void h_mgr_time() { symOwnJid(); DISPATCH12(timeCase); }
+extern "C" void h_mgr_time() { symOwnJid(); DISPATCH(timeCase); }
 template<unsigned C> static void discoCase()
 {
     Raw<QXmppDiscoveryManager> m;
     auto *d = new QXmppDiscoveryManagerPrivate; d->clientCapabilitiesNode = vpSymString(1);
     m.setD(d);
-    SymIq q; symIq(q, C >> 1, C & 1, 2);
+    SymIq q; symIq(q, C, C08_HASFROM, 2);
     // node attribute of the query (decides item-not-found)
     { QDomElement c; vp_c08_dom_child(&c, &q.iq, 0); if (!c.isNull()) attr(c, L("node"), vpSymString(1)); }
     const bool r = m->QXmppDiscoveryManager::handleStanza(q.iq);
     checkContract(q, r);
     if (q.isRequest()) vp_assert(r == (q.firstIs(TAG_QUERY, NS_DISCO_INFO) || q.firstIs(TAG_QUERY, NS_DISCO_ITEMS)), "C08 the discovery manager claims exactly the disco#info / disco#items requests");
 }
-extern "C" void h_mgr_disco() { symOwnJid(); DISPATCH12(discoCase); }
+extern "C" void h_mgr_disco() { symOwnJid(); DISPATCH(discoCase); }
 template<unsigned C> static void vcardCase()
 {
     Raw<QXmppVCardManager> m;
     m.setD(new QXmppVCardManagerPrivate);
-    SymIq q; symIq(q, C >> 1, C & 1, 2);
+    SymIq q; symIq(q, C, C08_HASFROM, 2);
 #ifdef KF_vcard_request_swallowed
     vp_assume(!(q.isRequest() && q.firstIs(TAG_VCARD, NS_VCARD)));
 #endif
     const bool r = m->QXmppVCardManager::handleStanza(q.iq);
     checkContract(q, r);
 }
-extern "C" void h_mgr_vcard() { symOwnJid(); DISPATCH12(vcardCase); }
+extern "C" void h_mgr_vcard() { symOwnJid(); DISPATCH(vcardCase); }
 template<unsigned C> static void rosterCase()
 {
     Raw<QXmppRosterManager> m;     // private data stays raw: roster IQs without <item/> never touch it (items are C12's subject)
-    SymIq q; symIq(q, C >> 1, C & 1, 2);
+    SymIq q; symIq(q, C, C08_HASFROM, 2);
 #ifdef KF_roster_get_swallowed
     vp_assume(!(q.ty == TY_GET && q.firstIs(TAG_QUERY, NS_ROSTER)));
 #endif
     const bool r = m->QXmppRosterManager::handleStanza(q.iq);
     checkContract(q, r);
 }
-extern "C" void h_mgr_roster() { symOwnJid(); DISPATCH12(rosterCase); }
+extern "C" void h_mgr_roster() { symOwnJid(); DISPATCH(rosterCase); }
